@@ -791,7 +791,8 @@ class StepResult(Generic[TSimulatorState], metaclass=abc.ABCMeta):
                     measured_qubits.append(q)
 
         # Perform whole-system sampling of the measured qubits.
-        indexed_sample = self.sample(measured_qubits, repetitions, seed=seed)
+        prng = value.parse_random_state(seed)
+        indexed_sample = self.sample(measured_qubits, repetitions, seed=prng)
 
         # Extract results for each measurement.
         results: dict[str, Any] = {}
@@ -806,7 +807,7 @@ class StepResult(Generic[TSimulatorState], metaclass=abc.ABCMeta):
                 out[:, i] = indexed_sample[:, qubits_to_index[q]]
             # As in `SimulationState.measure`, the confusion map acts on the raw outcome and the
             # invert mask is applied afterwards.
-            self._confuse_results(out, op.qubits, cmap, seed)
+            self._confuse_results(out, op.qubits, cmap, prng)
             for i in range(len(op.qubits)):
                 if inv_mask[i]:
                     out[:, i] ^= out[:, i] < 2
